@@ -182,10 +182,12 @@ class ExprGen:
             return ('call', 'if', [self.boolean(d - 1), self.num(d - 1), self.num(d - 1)][:r.choice([3, 3, 2])])
         if k < 0.88 and self.var('d'):
             return ('bin', '-', self.var('d'), self.var('d'))
+        # lengths are host ints; adding a literal makes them floats, so that products computed in generated loops saturate to
+        # infinity instead of growing without bound as arbitrary-precision integers
         if k < 0.92:
-            return ('call', 'stringLength', [self.string(d - 1)])
+            return ('bin', '+', ('call', 'stringLength', [self.string(d - 1)]), ('num', '0', 0.0))
         if k < 0.96 and self.var('a'):
-            return ('call', 'arrayLength', [self.var('a')])
+            return ('bin', '+', ('call', 'arrayLength', [self.var('a')]), ('num', '0', 0.0))
         return self.probe(self.num(d - 1))
 
     def string(self, d):
